@@ -1,6 +1,7 @@
 import Dashu.Proofs.Int.Bits
 import Dashu.Proofs.Int.BitsPrim
 import Dashu.Proofs.Int.BitsSpecFast
+import Dashu.Proofs.Int.BitsTz
 /-
   C09 — Bit operations follow infinite two's-complement semantics.
 
@@ -290,6 +291,55 @@ theorem trailing_ones_negative (W : Nat) (hW : 1 ≤ W) (m : TRepr) (hm : m.Cano
     (m.value W = 1 → m.trailingOnesNeg W = .ok none) ∧
     (2 ≤ m.value W → ∃ k, m.trailingOnesNeg W = .ok (some k) ∧ IsTz (m.value W - 1) k) :=
   TRepr.trailingOnesNeg_spec W hW m hm hz
+
+/-- **`IBig::trailing_zeros` read as two's-complement bits, either sign**: for `x ≠ 0` the result `k` is the position of the
+    lowest one bit of the infinite two's-complement form of `x` — bits `0..k-1` are 0, bit `k` is 1 (the code scans the
+    magnitude; for a negative number this is the same position) -/
+theorem ibig_trailing_zeros_bits (W : Nat) (a : SRepr) (ha : SCanon W a) (hz : a.value W ≠ 0) :
+    ∃ k, a.mag.trailingZeros W = .ok (some k) ∧
+      (∀ i, i < k → Int.testBit (a.value W) i = false) ∧ Int.testBit (a.value W) k = true := by
+  have hv : (a.value W).natAbs = a.mag.value W := by
+    obtain ⟨an, am⟩ := a
+    cases an <;> simp [SRepr.value]
+  have hm : a.mag.value W ≠ 0 := by
+    intro h; apply hz
+    obtain ⟨an, am⟩ := a
+    cases an <;> simp_all [SRepr.value]
+  obtain ⟨k, hk, ht⟩ := (TRepr.trailingZeros_spec W a.mag ha.1).2 hm
+  exact ⟨k, hk, tz_bits (a.value W) k (by rw [hv]; exact ht)⟩
+
+/-- **`IBig::trailing_ones` read as two's-complement bits, either sign**: `None` exactly for −1 (infinitely many ones);
+    otherwise the result `k` says bits `0..k-1` of `x` are 1 and bit `k` is 0 — for non-negative `x` through
+    `trailing_ones_large`, for negative `x` through `trailing_ones_neg` / `trailing_zeros_large_shifted_by_one` -/
+theorem ibig_trailing_ones_bits (W : Nat) (hW : 1 ≤ W) (a : SRepr) (ha : SCanon W a) :
+    (a.value W = -1 → ibigTrailingOnes W true a = .ok none) ∧
+    (a.value W ≠ -1 → ∃ k, ibigTrailingOnes W true a = .ok (some k) ∧
+      (∀ i, i < k → Int.testBit (a.value W) i = true) ∧ Int.testBit (a.value W) k = false) := by
+  obtain ⟨an, am⟩ := a
+  cases an with
+  | false =>
+    have hv : (SRepr.mk false am).value W = (am.value W : Int) := by simp [SRepr.value]
+    obtain ⟨k, hk, ht⟩ := TRepr.trailingOnes_fixed W am ha.1
+    refine ⟨fun h => by rw [hv] at h; omega, fun _ => ⟨k, ?_, ?_⟩⟩
+    · simp [ibigTrailingOnes, hk, Except.map]
+    · apply to_bits
+      rw [hv]
+      have : ((am.value W : Int) + 1).natAbs = am.value W + 1 := by omega
+      rw [this]; exact ht
+  | true =>
+    have hv : (SRepr.mk true am).value W = -(am.value W : Int) := by simp [SRepr.value]
+    have hz : am.value W ≠ 0 := ha.2 rfl
+    have ⟨h1, h2⟩ := TRepr.trailingOnesNeg_spec W hW am ha.1 hz
+    refine ⟨fun h => ?_, fun h => ?_⟩
+    · have : am.value W = 1 := by rw [hv] at h; omega
+      simp [ibigTrailingOnes, h1 this]
+    · have h2' : 2 ≤ am.value W := by rw [hv] at h; omega
+      obtain ⟨k, hk, ht⟩ := h2 h2'
+      refine ⟨k, by simp [ibigTrailingOnes, hk], ?_⟩
+      apply to_bits
+      rw [hv]
+      have : (-(am.value W : Int) + 1).natAbs = am.value W - 1 := by omega
+      rw [this]; exact ht
 
 /-- the specification functions the driver prints are the ones characterised above -/
 theorem driver_specs (n : Nat) :
